@@ -4,6 +4,38 @@ use crate::types::CelByteCode;
 use crate::utils::eval_ident;
 use crate::{CelError, CelValue};
 
+/// Deepest nesting of lists and maps the accumulator may reach. A body such as
+/// `[acc]` nests the accumulator once per element, and values are cloned,
+/// compared and dropped recursively: without a bound a receiver of some ten
+/// thousand elements exhausts the stack and aborts the process.
+const MAX_ACCUMULATOR_NESTING: usize = 1000;
+
+/// True when `value` holds a list or map more than `limit` levels below it
+/// (walked with an explicit stack: the value may be too deep to recurse into).
+fn nested_deeper_than(value: &CelValue, limit: usize) -> bool {
+    let mut todo = vec![(value, 0usize)];
+
+    while let Some((value, depth)) = todo.pop() {
+        match value {
+            CelValue::List(items) => {
+                if depth == limit {
+                    return true;
+                }
+                todo.extend(items.iter().map(|item| (item, depth + 1)));
+            }
+            CelValue::Map(entries) => {
+                if depth == limit {
+                    return true;
+                }
+                todo.extend(entries.values().map(|item| (item, depth + 1)));
+            }
+            _ => {}
+        }
+    }
+
+    false
+}
+
 // reduce [].reduce(curr, next, expression, starting)
 pub fn reduce_impl(ctx: &Interpreter, this: CelValue, bytecode: &[&CelByteCode]) -> CelValue {
     if bytecode.len() != 4 {
@@ -37,6 +69,12 @@ pub fn reduce_impl(ctx: &Interpreter, this: CelValue, bytecode: &[&CelByteCode])
                     Ok(val) => val,
                     Err(err) => return err.into(),
                 };
+
+                if nested_deeper_than(&cur_value, MAX_ACCUMULATOR_NESTING) {
+                    return CelValue::from_err(CelError::value(
+                        "reduce() accumulator is nested too deeply",
+                    ));
+                }
             }
 
             cur_value
